@@ -280,7 +280,8 @@ def reach_report(mod, ctx):
     return rows, never
 
 
-def run_sharded(prop, tier, seed, ctx, timeout):
+def run_sharded(prop, tier, seed, ctx, timeout, nshards=None):
+    NSHARDS = nshards or globals()["NSHARDS"]
     procs = []
     tmpdir = tempfile.mkdtemp(prefix=f"vf-{prop}-", dir=os.environ.get("VERIF_SCRATCH", None))
     try:
@@ -458,8 +459,12 @@ def main(argv):
 
     ctx = Ctx(a.prop, a.tier, seed)
     sharded = a.tier == "thorough" and getattr(mod, "SHARDED", True)
+    qshards = int(os.environ.get("VERIF_QUICK_SHARDS", getattr(mod, "QUICK_SHARDS", 1)))
     if sharded:
         run_sharded(a.prop, a.tier, seed, ctx, getattr(mod, "THOROUGH_TIMEOUT", 3000))
+    elif a.tier == "quick" and qshards > 1:
+        # the quick tier may use several cores too: same workload definition, split over worker processes
+        run_sharded(a.prop, a.tier, seed, ctx, getattr(mod, "QUICK_TIMEOUT", 900), nshards=qshards)
     else:
         faulthandler.dump_traceback_later(getattr(mod, "QUICK_TIMEOUT", 900), exit=True)
         run_module(mod, ctx)
